@@ -16,7 +16,10 @@ import FranzVerif.Spec.C18
 
   wire <v> <limit> <nparts> <valsize> <topiclen> | frames=<k> (<len> <hex>)*
       model output `*` (which batch goes into which request depends on scheduling); verdict: every frame decodes
-      strictly, the frames carry one record per partition with the produced value, and no frame exceeds the limit. -/
+      strictly, the frames carry one record per partition with the produced value, and no frame exceeds the limit.
+
+  reqlen <same arguments as req> | … nreq=<k> (R <ver> <accounted> len=<n>)*
+      manual probe (never generated) for requests too large to print; verdict: every n ≤ limit. -/
 open Driver
 open Model.C18 (Bytes)
 
@@ -325,6 +328,12 @@ def step (_ : Unit) (line : String) : Unit × String :=
   | "wire" :: _ =>
     let (v, nt) := verdictWire ts impl
     ((), s!"* | {v} | {boolStr nt}")
+  | "reqlen" :: rest =>
+    -- manual probe for requests too large to print: only `R <ver> <accounted> len=<n>`; verdict: n ≤ limit
+    let limit := ((rest[5]?).bind (·.toInt?)).getD 0
+    let lens := (toks impl).filterMap fun t => if t.startsWith "len=" then (t.drop 4).toString.toInt? else none
+    let v := if lens.any (· > limit) then "0:large-request-exceeds-max-write-bytes" else "1"
+    ((), s!"* | {v} | {boolStr (!lens.isEmpty)}")
   | _ => ((), "bad-op | - | 0")
 
 def main : IO UInt32 := runLoop () step
